@@ -102,9 +102,10 @@ func c13(w *core.World, r *core.Report) {
 
 	// ---- DEL-BEFORE-UPD
 	r.Rule("DEL-BEFORE-UPD", 2, "within one notification the deletes are written before the updates (no delete Modify can follow an update Modify), and both kinds are written (one Modify with deletes only, one with updates only).")
-	var delMods, updMods []ssa.CallInstruction
-	for _, m := range core.CallsTo(store, kModify) {
-		a := core.CallArgs(m)
+	// a Modify wrapped in a helper that both loops call counts once per call of the helper, with that call's arguments
+	var delMods, updMods []core.VCall
+	for _, m := range core.VirtualCalls(store, core.CallArgs, core.CallsTo(store, kModify)) {
+		a := m.Args
 		if len(a) != 5 {
 			continue
 		}
@@ -114,26 +115,28 @@ func c13(w *core.World, r *core.Report) {
 		case core.IsNilConst(a[3]) && !core.IsNilConst(a[4]):
 			updMods = append(updMods, m)
 		default:
-			r.Viol("DEL-BEFORE-UPD", core.Site(store, "Modify with deletes and updates mixed"), w.InstrPos(m), "one Modify carrying both makes the order a property of the cache client")
+			r.Viol("DEL-BEFORE-UPD", core.Site(store, "Modify with deletes and updates mixed"), w.InstrPos(m.At), "one Modify carrying both makes the order a property of the cache client")
 		}
 	}
 	r.Check(len(delMods) == 1 && len(updMods) == 1, "DEL-BEFORE-UPD", core.Site(store, "one delete writer and one update writer"), w.Pos(store.Pos()), fmt.Sprintf("%d delete / %d update Modify calls", len(delMods), len(updMods)))
 	for _, d := range delMods {
 		for _, u := range updMods {
-			r.Check(!core.CanFollow(u, d), "DEL-BEFORE-UPD", core.Site(store, "deletes before updates"), w.InstrPos(d), "a delete written after the update of the same notification removes what was just reported")
+			r.Check(!core.CanFollow(u.At, d.At), "DEL-BEFORE-UPD", core.Site(store, "deletes before updates"), w.InstrPos(d.At), "a delete written after the update of the same notification removes what was just reported")
 		}
 	}
 
 	// ---- STORE-AGREE
 	r.Rule("STORE-AGREE", 6, "the store each entry is written to is decided per entry: Opts.Store of both Modify calls is not loop-carried (re-initialised in every iteration), is STATE only under 'Sync.Validate && isState(schema of THIS path)', and isState looks at the IsState flag of all three schema kinds.")
-	for _, m := range append(append([]ssa.CallInstruction{}, delMods...), updMods...) {
-		sv, _ := optsField(m, "Store")
+	for _, vm := range append(append([]core.VCall{}, delMods...), updMods...) {
+		m := vm.At
+		sv, _ := optsField(vm.Call, "Store")
+		sv = vm.BindAt(sv)
 		if sv == nil {
 			r.Viol("STORE-AGREE", core.Site(store, "Opts.Store"), w.InstrPos(m), "store not selected")
 			continue
 		}
 		kind := "update"
-		if core.IsNilConst(core.CallArgs(m)[4]) {
+		if core.IsNilConst(vm.Args[4]) {
 			kind = "delete"
 		}
 		p := loopCarried(sv)
@@ -214,7 +217,8 @@ func c13(w *core.World, r *core.Report) {
 
 	// ---- EVERY-ENTRY-WRITTEN
 	r.Rule("EVERY-ENTRY-WRITTEN", 2, "in storeSyncMsg whether a delete / update of a notification is written to the cache depends on failures only: every path from the start of a loop iteration to the next iteration passes the Modify call or an err != nil edge. A memo of 'already written' values, a filter on the value or any other skip makes the mirror miss what the device sent (e.g. the same value again after an ancestor was deleted).")
-	for i, m := range core.CallsTo(store, kModify) {
+	for i, vm := range core.VirtualCalls(store, core.CallArgs, core.CallsTo(store, kModify)) {
+		m := vm.At
 		// loop header: the dominating branch on 'index < len(slice)'
 		var head *ssa.If
 		for _, g := range core.GuardsOf(m) {
@@ -346,8 +350,8 @@ func c13(w *core.World, r *core.Report) {
 
 	// ---- SAME-KEYING
 	r.Rule("SAME-KEYING", 3, "delete paths and update paths are turned into cache keys the same way (key values in key-name order, keys included): deletes through utils.ToStrings(p,false,false), updates through cache.Client.NewUpdate; leaf-lists sent as keys are grouped per list instance (grouping key ToXPath(p, noKeys=false)).")
-	for _, d := range delMods {
-		a := core.CallArgs(d)
+	for _, vd := range delMods {
+		a, d := vd.Args, vd.At
 		ok := false
 		sl := core.DataSlice(store, []ssa.Value{a[3]})
 		for v := range sl.Values {
@@ -362,8 +366,8 @@ func c13(w *core.World, r *core.Report) {
 		}
 		r.Check(ok, "SAME-KEYING", core.Site(store, "delete path via ToStrings(p,false,false)"), w.InstrPos(d), "deletes must address the keys the updates were stored under")
 	}
-	for _, u := range updMods {
-		a := core.CallArgs(u)
+	for _, vu := range updMods {
+		a, u := vu.Args, vu.At
 		sl := core.DataSlice(store, []ssa.Value{a[4]})
 		r.Check(sl.HasCallTo("cache.Client.NewUpdate"), "SAME-KEYING", core.Site(store, "update via cacheClient.NewUpdate"), w.InstrPos(u), "updates are keyed by the cache client")
 	}
@@ -575,7 +579,9 @@ func c14(w *core.World, r *core.Report) {
 						continue
 					}
 					n++
-					r.Check(core.GuardedByBoolCall(at, true, "cache.belowAnyPath"), "READ-EXACT", core.Site(g, "entry filtered before it is handed on"), w.InstrPos(at), "entries the cache delivers because their key merely starts with the requested key must be dropped")
+					guarded := false
+					core.WithHost(g, func() { guarded = core.GuardedByBoolCall(at, true, "cache.belowAnyPath") })
+					r.Check(guarded, "READ-EXACT", core.Site(g, "entry filtered before it is handed on"), w.InstrPos(at), "entries the cache delivers because their key merely starts with the requested key must be dropped")
 				}
 			}
 		}
@@ -985,7 +991,8 @@ func c15(w *core.World, r *core.Report) {
 			ok := (y0 != nil && fromRunning(a[1]) && y1 == nil) || (y1 != nil && fromRunning(a[0]) && y0 == nil)
 			r.Check(ok, "OPERANDS", core.Site(run, "NOT_APPLIED compares ruling intent with running"), w.InstrPos(eq), "operands must be (normalised ruling intent value, running value)")
 		case 3:
-			ok := y0 != nil && y1 != nil && y0 != y1
+			// two normalisations: two calls, or one helper that normalises, called for the ruling and for the lower intent
+			ok := y0 != nil && y1 != nil && (y0 != y1 || differentHelperCalls(a[0], a[1]))
 			r.Check(ok, "OPERANDS", core.Site(run, "OVERRULED compares ruling intent with lower intent"), w.InstrPos(eq), "operands must be the normalised values of the ruling and of the lower-precedence intent (not the running value)")
 		}
 	}
@@ -1138,4 +1145,55 @@ func sortComparators(fn *ssa.Function) []*ssa.Function {
 		}
 	})
 	return out
+}
+
+// differentHelperCalls: a and b are (fields of) the results of two different calls of a virtually inlined helper.
+func differentHelperCalls(a, b ssa.Value) bool {
+	via := func(v ssa.Value) map[*ssa.Call]bool {
+		out := map[*ssa.Call]bool{}
+		seen := map[ssa.Value]bool{}
+		var walk func(v ssa.Value, d int)
+		walk = func(v ssa.Value, d int) {
+			if v == nil || seen[v] || d > 8 {
+				return
+			}
+			seen[v] = true
+			switch x := v.(type) {
+			case *ssa.Call:
+				if core.InlinedCallee(x) != nil {
+					out[x] = true
+				}
+			case *ssa.Extract:
+				walk(x.Tuple, d+1)
+			case *ssa.UnOp:
+				walk(x.X, d+1)
+			case *ssa.FieldAddr:
+				walk(x.X, d+1)
+			case *ssa.Field:
+				walk(x.X, d+1)
+			case *ssa.Phi:
+				for _, e := range x.Edges {
+					walk(e, d+1)
+				}
+			case *ssa.Alloc:
+				for _, ref := range *x.Referrers() {
+					if st, ok := ref.(*ssa.Store); ok && st.Addr == ssa.Value(x) {
+						walk(st.Val, d+1)
+					}
+				}
+			}
+		}
+		walk(v, 0)
+		return out
+	}
+	sa, sb := via(a), via(b)
+	if len(sa) == 0 || len(sb) == 0 {
+		return false
+	}
+	for c := range sa {
+		if sb[c] {
+			return false
+		}
+	}
+	return true
 }
